@@ -108,9 +108,13 @@ pub fn parallel_parse(
     let (tx, rx) = bounded::<anyhow::Result<ParsedData>>(100);
 
     let collector_thread = thread::spawn(move || {
+        #[cfg(typeshare_verif)]
+        let _guard = crate::verif::CollectorGuard;
         let mut crate_parsed_data: BTreeMap<CrateName, ParsedData> = BTreeMap::new();
 
         for result in rx {
+            #[cfg(typeshare_verif)]
+            crate::verif::recv_point();
             let parsed_data = result?;
             let crate_name = parsed_data.crate_name.clone();
             // Append each yielded parsed data by its respective crate.
@@ -125,16 +129,22 @@ pub fn parallel_parse(
 
         Box::new(move |result| {
             let result = result.context("Failed traversing").and_then(|dir_entry| {
+                #[cfg(typeshare_verif)]
+                crate::verif::enter_file(dir_entry.path());
                 parse_dir_entry(parse_context, language_type, &dir_entry)
                     .with_context(|| format!("Parsing failed: {:?}", dir_entry.path()))
             });
             match result {
                 Ok(Some(parsed_data)) => {
+                    #[cfg(typeshare_verif)]
+                    crate::verif::file_point("send");
                     tx.send(Ok(parsed_data)).unwrap();
                     WalkState::Continue
                 }
                 Ok(None) => WalkState::Continue,
                 Err(err) => {
+                    #[cfg(typeshare_verif)]
+                    crate::verif::file_point("send");
                     tx.send(Err(err)).unwrap();
                     WalkState::Quit
                 }
@@ -142,6 +152,8 @@ pub fn parallel_parse(
         })
     });
 
+    #[cfg(typeshare_verif)]
+    crate::verif::point("drop_tx");
     drop(tx);
     collector_thread.join().unwrap()
 }
